@@ -207,10 +207,19 @@ func (c *lcClient) runWork(conn net.Conn) {
 
 // register sends NewProxy and returns (response, got a reply).
 func (c *lcClient) register(f M) (M, bool) {
+	name := mstr(f, "proxy_name")
 	c.smu.Lock()
-	c.ptypes[mstr(f, "proxy_name")] = mstr(f, "proxy_type")
+	if _, known := c.ptypes[name]; !known {
+		c.ptypes[name] = mstr(f, "proxy_type")
+	}
 	c.smu.Unlock()
-	return c.NewProxy(f, 30*time.Second)
+	r, ok := c.NewProxy(f, 30*time.Second)
+	if ok && mstr(r, "error") == "" {
+		c.smu.Lock()
+		c.ptypes[name] = mstr(f, "proxy_type")
+		c.smu.Unlock()
+	}
+	return r, ok
 }
 
 // workConnStates returns how many offered work connections are still open from the peer's point of view.
